@@ -65,6 +65,19 @@ fn same_ts(a: Timestamp, want_ns: i128, what: &str) -> CaseResult {
         a.as_second(),
         a.subsec_nanosecond()
     );
+    // the other integer views, the duration view and the std::time view of the same instant
+    ensure!(a.as_millisecond() as i128 == want_ns / 1_000_000 && a.as_microsecond() as i128 == want_ns / 1000, format!("{what}-milli-micro-views"), "{what}: as_millisecond {} as_microsecond {} for ns {want_ns}", a.as_millisecond(), a.as_microsecond());
+    ensure!(a.as_duration().as_nanos() == want_ns, format!("{what}-duration-view"), "{what}: as_duration {:?} for ns {want_ns}", a.as_duration());
+    let st = std::time::SystemTime::from(a);
+    let st_ns = match st.duration_since(std::time::UNIX_EPOCH) {
+        Ok(d) => d.as_nanos() as i128,
+        Err(e) => -(e.duration().as_nanos() as i128),
+    };
+    ensure!(st_ns == want_ns, format!("{what}-systemtime-view"), "{what}: SystemTime::from gives {st_ns} ns from the epoch for ns {want_ns}");
+    match Timestamp::try_from(st) {
+        Ok(back) => ensure!(back.as_nanosecond() == want_ns, format!("{what}-systemtime-roundtrip"), "{what}: Timestamp::try_from(SystemTime::from(ts)) = {} for ns {want_ns}", back.as_nanosecond()),
+        Err(e) => fail!(format!("{what}-systemtime-roundtrip"), "{what}: Timestamp::try_from(SystemTime::from(ts)) = Err({e})"),
+    }
     Ok(())
 }
 
